@@ -15,6 +15,9 @@
 (*   rel    t          t wrote counter+1 and is about to call Release       *)
 (*   relret t          Release has returned                                 *)
 (*   probe  st         the controller read the lock word: st                *)
+(*   nb     n0 n1      the 4 bytes behind the lock word (the lock is the    *)
+(*                     first field of a cell: zero / a datum / another held *)
+(*                     lock) before and after the case                      *)
 (*   reset             end of one case                                      *)
 (* Between two events the monitor may take the *silent* steps of the lock   *)
 (* specification (the atomic exchange, the atomic store), so TLC searches    *)
@@ -39,6 +42,7 @@ Event(e) ==
     [] e.k = "rel"    -> RelCall(e.t) /\ UNCHANGED res
     [] e.k = "relret" -> RelRet(e.t) /\ UNCHANGED res
     [] e.k = "probe"  -> ((e.st = 0) <=> (state = 0)) /\ UNCHANGED <<state, pc, counter, tmp, done, res>>
+    [] e.k = "nb"     -> e.n0 = e.n1 /\ UNCHANGED <<state, pc, counter, tmp, done, res>>      \* lock operations never touch the neighbour
     [] e.k = "reset"  -> /\ state' = 0 /\ pc' = [t \in Tasks |-> "idle"] /\ counter' = 0
                          /\ tmp' = [t \in Tasks |-> 0] /\ done' = 0 /\ res' = [t \in Tasks |-> "none"]
 
